@@ -34,7 +34,7 @@ fcppt::options::impl::is_flag(fcppt::string_view const &_value)
   ++pos;
 
   return result_type{
-      is_dash(*pos)
+      pos != _value.end() && is_dash(*pos)
           ? std::make_pair(
                 fcppt::options::detail::flag_is_short{false},
                 fcppt::string{// NOLINTNEXTLINE(fuchsia-default-arguments-calls)
